@@ -262,8 +262,11 @@ def r07c(ctx, run):
 
 # ---- R07.d: what the checker accepts, the code generator can build --------------------------------------------
 def _ty_samples():
-    from absint import Variant, Term
-    sub = Variant("TySym", {"n": "sub"})
+    from absint import Variant, Term, Obj
+    # components are a plain comparable type: the component-wise question is R07.i's
+    sub = Variant("Ty::IInt", {"0": 32})
+    mem = Obj("MemberTy", name=Term("m"), ty=sub)
+    var = Variant("Ty::EnumVariant", {"enum_uid": 1, "variant_name": Term("A"), "uid": 2, "sub_ty": sub, "discriminant": 0})
     return {
         "IInt": Variant("Ty::IInt", {"0": 32}), "UInt": Variant("Ty::UInt", {"0": 32}), "Float": Variant("Ty::Float", {"0": 64}),
         "Bool": Variant("Ty::Bool"), "Char": Variant("Ty::Char"), "String": Variant("Ty::String"), "Type": Variant("Ty::Type"),
@@ -272,8 +275,8 @@ def _ty_samples():
         "Any": Variant("Ty::Any"), "RawPtr": Variant("Ty::RawPtr", {"mutable": False}), "RawSlice": Variant("Ty::RawSlice"),
         "ConcreteFunction": Variant("Ty::ConcreteFunction", {"param_tys": [], "return_ty": sub, "fn_loc": Term("loc")}),
         "FunctionPointer": Variant("Ty::FunctionPointer", {"param_tys": [], "return_ty": sub}),
-        "AnonStruct": Variant("Ty::AnonStruct", {"members": [Term("m")]}), "ConcreteStruct": Variant("Ty::ConcreteStruct", {"uid": 1, "members": [Term("m")]}),
-        "Enum": Variant("Ty::Enum", {"uid": 1, "variants": [Term("v")]}), "Optional": Variant("Ty::Optional", {"sub_ty": sub}),
+        "AnonStruct": Variant("Ty::AnonStruct", {"members": [mem]}), "ConcreteStruct": Variant("Ty::ConcreteStruct", {"uid": 1, "members": [mem]}),
+        "Enum": Variant("Ty::Enum", {"uid": 1, "variants": [var]}), "Optional": Variant("Ty::Optional", {"sub_ty": sub}),
         "ErrorUnion": Variant("Ty::ErrorUnion", {"error_ty": sub, "payload_ty": sub}),
     }
 
@@ -291,8 +294,10 @@ def r07d(ctx, run):
     ops = [v["n"] for v in en["variants"]]
     samples = _ty_samples()
 
+    QI0 = make_ty_interp(ctx)
+
     def accepted(op, kind):
-        it = Interp(methods={"absolute_ty": lambda i, r, a: r})
+        it = QI0()
         names = cp.param_names()
         return it.run_fn(cp, {"self": Variant("BinaryOp::" + op), names[-1]: samples[kind]})
 
@@ -519,6 +524,146 @@ def r07h(ctx, run):
         raise LookupError("accepted casts among the sample pairs: %d of %d" % (n_acc, n_all))
 
 
+def make_ty_interp(ctx, fc=None):
+    """interpreter in which Ty's small predicates are evaluated from hir/src/common/ty.rs itself, builder calls are opaque, and (optionally) the named
+    FunctionCompiler methods `fc` are inlined"""
+    import c12
+    from absint import Obj, Term, Variant, Panic, CannotEstablish
+    V = Variant
+    fc = fc or {}
+    TY = "hir/src/common/ty.rs"
+    ty_fns = {}
+    for f in ctx.syn.fns_in(TY):
+        if f.body is not None and not f.in_test and (f.qual.startswith("Ty::") or "absolute_intern_ty" in f.qual):
+            ty_fns.setdefault(f.qual.rsplit("::", 1)[-1], f)
+    NUM = ("IInt", "UInt", "Float", "Bool", "Char", "Type")
+
+    class QI(c12.NI):
+        def default_method(self, recv, m, args, e):
+            if isinstance(recv, Obj) and recv.name == "self" and m in fc:
+                return self.inline(fc[m], args, recv=recv)
+            if isinstance(recv, Variant) and recv.path.startswith("FinalTy"):
+                if m == "is_number_type":
+                    return recv.last == "Number"
+                if m == "into_real_type":
+                    return None if recv.last == "Void" else Term("real_ty")
+            if isinstance(recv, Variant) and recv.path.startswith("Ty::"):
+                if m in ("as_ref", "deref", "clone", "into", "borrow"):
+                    return recv
+                if m == "get_final_ty":
+                    a = recv
+                    while a.last in ("Distinct", "EnumVariant"):
+                        a = a.payload["sub_ty"]
+                    if a.last in NUM:
+                        return V("FinalTy::Number", {"0": Term("numty")})
+                    zs = self.inline(ty_fns["is_zero_sized"], [], recv=a)
+                    return V("FinalTy::Void") if zs else V("FinalTy::Pointer", {"0": Term("ptr_ty")})
+                if m in ("enum_layout", "struct_layout", "size", "align", "stride", "align_shift"):
+                    return Term(m)
+                f = ty_fns.get(m)
+                if f is not None:
+                    return self.inline(f, args, recv=recv)
+            if isinstance(recv, list) and m in ("iter", "into_iter"):
+                return recv
+            if recv is None or isinstance(recv, (Term, Obj)):
+                return Term(m)
+            return super().default_method(recv, m, args, e)
+
+        def eval(self, e, env):
+            k = e["k"]
+            if k == "try":
+                return self.eval(e["e"], env)
+            if k == "un" and e.get("op") in ("*", "&"):
+                return self.eval(e["e"], env)
+            if k == "ref":
+                return self.eval(e["e"], env)
+            if k == "assign" and e["l"]["k"] == "index":
+                return None
+            if k == "index":
+                b = self.eval(e["e"], env)
+                if isinstance(b, Term):
+                    return Term("idx")
+            if k == "cast":
+                return self.eval(e["e"], env)
+            if k == "path" and e["p"] not in env and ("::" in e["p"]) and not e["p"].startswith("Ty::") and not e["p"].startswith("hir::BinaryOp"):
+                return Term(e["p"])
+            return super().eval(e, env)
+    return QI
+
+
+def r07i(ctx, run):
+    """== / != on aggregates: TypedOp::can_perform looks at the outermost kind only, compile_complex_compare recurses into element, member, payload and
+    variant types.  Both are evaluated from source for one level of nesting: an accepted comparison must not end in an unreachable!() of the code
+    generator (an `any`, rawptr, function or zero-sized component)."""
+    import c12
+    from absint import Obj, Term, Variant, Panic, CannotEstablish, Interp
+    V = Variant
+    TY = "hir/src/common/ty.rs"
+    CG = "codegen/src/compiler/functions.rs"
+    cp = [f for f in ctx.syn.fns_in(TY) if f.qual == "BinaryOp::can_perform" and f.body is not None][0]
+    ty_fns = {}
+    for f in ctx.syn.fns_in(TY):
+        if f.body is not None and not f.in_test and (f.qual.startswith("Ty::") or "absolute_intern_ty" in f.qual):
+            ty_fns.setdefault(f.qual.rsplit("::", 1)[-1], f)
+    fc = {}
+    for n in ("compile_complex_compare", "compile_array_compare", "compile_enum_compare", "logical", "logical_and", "logical_or"):
+        fc[n] = ctx.syn.fn("FunctionCompiler::" + n, CG)
+    NUM = ("IInt", "UInt", "Float", "Bool", "Char", "Type")
+
+    QI = make_ty_interp(ctx, fc)
+    i32, st = V("Ty::IInt", {"0": 32}), V("Ty::String")
+    comps = {
+        "i32": i32, "str": st, "bool": V("Ty::Bool"), "void": V("Ty::Void"), "any": V("Ty::Any"), "rawptr": V("Ty::RawPtr", {"mutable": False}), "rawslice": V("Ty::RawSlice"),
+        "fn pointer": V("Ty::FunctionPointer", {"param_tys": [], "return_ty": V("Ty::Void")}), "^i32": V("Ty::Pointer", {"mutable": False, "sub_ty": i32}),
+        "[2]i32": V("Ty::ConcreteArray", {"size": 2, "sub_ty": i32}), "?i32": V("Ty::Optional", {"sub_ty": i32}),
+    }
+
+    def mem(n, t):
+        return Obj("MemberTy", name=Term(n), ty=t)
+    ctors = {
+        "[2]%s": lambda k: V("Ty::ConcreteArray", {"size": 2, "sub_ty": k}),
+        "[]%s": lambda k: V("Ty::Slice", {"sub_ty": k}),
+        "?%s": lambda k: V("Ty::Optional", {"sub_ty": k}),
+        "str!%s": lambda k: V("Ty::ErrorUnion", {"error_ty": st, "payload_ty": k}),
+        "struct{a: i32, b: %s}": lambda k: V("Ty::ConcreteStruct", {"uid": 7, "members": [mem("a", i32), mem("b", k)]}),
+        "struct{b: %s, a: i32}": lambda k: V("Ty::ConcreteStruct", {"uid": 8, "members": [mem("b", k), mem("a", i32)]}),
+        "enum{A: %s}": lambda k: V("Ty::Enum", {"uid": 9, "variants": [V("Ty::EnumVariant", {"enum_uid": 9, "variant_name": Term("A"), "uid": 10, "sub_ty": k, "discriminant": 0})]}),
+    }
+    cc = fc["compile_complex_compare"]
+    n = 0
+    for cn, mk in ctors.items():
+        for kn, K in comps.items():
+            name = cn % kn
+            T = mk(K)
+            for op in ("Eq", "Ne"):
+                it0 = QI()
+                try:
+                    acc = it0.run_fn(cp, {"self": V("BinaryOp::" + op), cp.param_names()[-1]: T})
+                except (Panic, CannotEstablish) as c:
+                    run.finding(cp.qual, "accept:%s:%s" % (op, name), cp.file, cp.ln, "cannot establish whether %s is accepted on %s: %s" % (op, name, getattr(c, "what", c)))
+                    continue
+                if acc is not True:
+                    run.ok(cp.site(), "%s on %s is rejected by the checker" % (op, name))
+                    continue
+                n += 1
+                it = QI(funcs={"Switch::new": lambda i, a: Term("switch"), "BlockArg::Value": lambda i, a: Term("arg"), "MemFlags::trusted": lambda i, a: Term("trusted"),
+                               "Some": lambda i, a: a[0]},
+                        macros={"format": lambda i, e, env: "fmt", "vec": lambda i, e, env: [i.eval(a, env) for a in e.get("a", [])],
+                                "assert": lambda i, e, env: None, "assert_eq": lambda i, e, env: None})
+                selfo = Obj("self", builder=Term("builder"), func_writer=Term("fw"), ptr_ty=Term("ptr_ty"))
+                try:
+                    it.inline(cc, [Term("lhs"), Term("rhs"), T, V("hir::BinaryOp::" + op)], recv=selfo)
+                    run.ok(cc.site(), "%s on %s: accepted and built" % (op, name))
+                except Panic as p_:
+                    run.finding(cc.qual, "accepted-but-unbuildable:%s:%s" % (op, name), cc.file, cc.ln,
+                                "`%s` between two values of type %s is accepted by the checker (can_perform looks at the outermost kind only) but the code generator reaches %s "
+                                "for the component: no diagnostic, no executable" % ("==" if op == "Eq" else "!=", name, p_.what))
+                except CannotEstablish as c:
+                    run.finding(cc.qual, "compare-build:%s:%s" % (op, name), cc.file, cc.ln, "cannot establish how %s on %s is built: %s" % (op, name, getattr(c, "what", c)))
+    if n < 60:
+        raise LookupError("accepted nested comparisons: %d" % n)
+
+
 def r07f(ctx, run):
     import c12
     c12.noeval_law(ctx, run, clauses=("wrapped",))
@@ -531,6 +676,7 @@ def rules(ctx):
         Rule("R07.d", "operator/type combinations the checker accepts are ones the code generator has an arm for (belief vs use, across crates)", 80, r07d),
         Rule("R07.e", "every path that finishes a global's body passes the GlobalNotConst test (must-pass-through on MIR)", 1, r07e),
         Rule("R07.h", "every cast Ty::can_cast_to accepts is one cast_into_memory can build (both evaluated from source over 31 x 30 type pairs)", 100, r07h),
+        Rule("R07.i", "== / != on aggregates: every component type the comparison recurses into has a code-generator arm (checker and generator evaluated one level deep)", 60, r07i),
         Rule("R07.g", "get_const's classification per expression kind: Unknown (= stay silent) only where an error was already reported (shared with C15 R15.b)", 60, r07g),
         Rule("R07.f", "the common type of a branch that always jumps and any other branch never wraps `noeval` in a constructor (no code-generator support, no diagnostic)", 60, r07f),
         Rule("R07.c", "is_safe_to_compile: complete error set, membership first, Missing/unknown/unlabelled unsafe; severity mapping", 11, r07c),
